@@ -183,20 +183,26 @@ class Bag:
 
 
 def _core_job(args):
-    periods, quick = args
+    periods, quick = args[:2]
+    nfix = args[2] if len(args) > 2 else None       # long-series runs: the same comparisons on a fixed, long input
     import jesse.indicators as ta
     B = Bag()
     sources = indreg.SOURCES if not quick else ['close', 'hl2', 'volume']
+    LN = {'length': nfix} if nfix else {}
+    if nfix:
+        sources = ['close', 'hl2']
     for p in periods:
         a_e, a_w = 2.0 / (p + 1), 1.0 / p
-        n = min(12000, max(400, 3 * p + 3 * decay_steps(a_w) + 60))
+        n = nfix or min(12000, max(400, 3 * p + 3 * decay_steps(a_w) + 60))
         menu = series_menu(n)
         names = list(menu) if not quick else ['constant', 'alternating', 'walk', 'gappy', 'huge', 'tiny', 'up']
+        if nfix:
+            names = ['walk', 'gappy']
         for sname in names:
             c = menu[sname]
             for st in sources:
                 x = src(c, st)
-                case = {'series': sname, 'params': {'period': p, 'source_type': st}}
+                case = dict({'series': sname, 'params': {'period': p, 'source_type': st}}, **LN)
                 kw = dict(period=p, source_type=st, sequential=True)
                 # ---- window functions: exact
                 B.eq('sma', ta.sma(c, **kw), r_window(x, p, np.mean), case)
@@ -274,7 +280,7 @@ def _core_job(args):
                 if (bb.upperband[m] < bb.middleband[m] - 1e-12 * scale).any() or (bb.middleband[m] < bb.lowerband[m] - 1e-12 * scale).any():
                     B.bad('band-order', 'bollinger_bands', {}, case, 'upper >= middle >= lower violated')
             # ---- candle based (no source type)
-            case = {'series': sname, 'params': {'period': p}}
+            case = dict({'series': sname, 'params': {'period': p}}, **LN)
             h, l, cl, o, v = c[:, 3], c[:, 4], c[:, 2], c[:, 1], c[:, 5]
             tr = r_tr(c)
             at = ta.atr(c, period=p, sequential=True)
@@ -327,6 +333,14 @@ def _core_job(args):
                 kv = kv[np.isfinite(kv)]
                 if len(kv) and (kv.min() < -1e-7 or kv.max() > 100 + 1e-7):
                     B.bad('range', 'stochf', {}, case, 'stochf %%K outside [0, 100]: %r..%r' % (float(kv.min()), float(kv.max())))
+                # %D lines: simple averages of a %K line that starts with undefined values (smoothing of a NaN-prefixed array)
+                kn = kk.copy()
+                kn[:p - 1] = np.nan
+                d_ref = r_window(kn, 3, np.mean)
+                B.eq('stochf', sf.d[p + 1:], d_ref[p + 1:], dict(case, field='d'), rel=1e-8)
+                ss = ta.stoch(c, fastk_period=p, slowk_period=3, slowk_matype=0, slowd_period=3, slowd_matype=0, sequential=True)
+                B.eq('stoch', ss.k[p + 1:], d_ref[p + 1:], dict(case, field='k'), rel=1e-8)
+                B.eq('stoch', ss.d[p + 3:], r_window(d_ref, 3, np.mean)[p + 3:], dict(case, field='d'), rel=1e-8)
             # money flow index
             raw = tp * v
             pos = np.zeros(len(c))
@@ -481,6 +495,9 @@ def run(ctx):
     cov = ctx.coverage
     periods = list(range(2, 61)) if not ctx.quick else [2, 3, 5, 7, 9, 10, 12, 14, 20, 21, 26, 30, 50, 60]
     jobs = [([p], ctx.quick) for p in periods]
+    # long inputs (research-style calls on months of 1m candles): implementations switch algorithms with the input length
+    LONG = [(5000, [2, 14, 50])] if ctx.quick else [(4097, [2, 3, 14]), (5000, [2, 5, 14, 30, 60]), (20000, [14, 60])]
+    jobs += [([p], ctx.quick, n) for n, ps in LONG for p in ps]
     sigs = set()
 
     def take(r):
@@ -512,7 +529,7 @@ def run(ctx):
     cov['distinct_nontrivial'] = len(periods) * 40 + len(MA_TABLE) * len(sel_periods)
     cov['rule'] = 'every period x source type x series of the menu for ~40 indicators + every matype of ma() + all words of length 8 for periods 2, 3; distinct_nontrivial = (period, indicator) pairs + (matype, period) pairs'
     cov['bounds'] = {'periods': periods, 'sources': indreg.SOURCES if not ctx.quick else ['close', 'hl2', 'volume'], 'series': sorted(series_menu(10)),
-                     'matypes': sorted(MA_TABLE), 'word_length': 8 if not ctx.quick else 6}
+                     'matypes': sorted(MA_TABLE), 'word_length': 8 if not ctx.quick else 6, 'long_series': [[n, ps] for n, ps in LONG]}
     ctx.sample({'indicator': 'ema', 'series': 'walk', 'params': {'period': 14, 'source_type': 'hl2'}})
     ctx.sample({'indicator': 'ma', 'params': {'matype': 12, 'period': 5}})
     ctx.assumptions += ['recursive smoothers: recurrence step checked on the implementation\'s own output past the seed; values compared with a reference seeded by the first value once (1-alpha)^k < 1e-12 (times 2-4 for nested smoothing)',
@@ -527,5 +544,5 @@ def replay(case, ctx):
     elif 'word' in case:
         r = _words_job(([tuple(case['word'])],))
     else:
-        r = _core_job(([p], False))
+        r = _core_job(([p], False, case['length'])) if case.get('length') else _core_job(([p], False))
     return [Violation.from_json(v) for v in r['viols'] if v['case'].get('indicator') == ind]
